@@ -254,7 +254,7 @@ func c10genPath(r *rand.Rand, root interface{}, k string) []string {
 
 func (c10) Case(c *core.Ctx) {
 	r := c.R
-	g := jv.GenOpt{Keys: c10keys, MaxFan: 3, WideProb: 60, EmptyConts: true, Nulls: true, Scalars: c08scalar}.Fresh()
+	g := jv.GenOpt{Keys: c10keys, MaxFan: 3, WideProb: 60, ListInList: r.Intn(3) == 0, EmptyConts: true, Nulls: true, Scalars: c08scalar}.Fresh()
 	root := jv.M{"doc": g.Value(r, 1+r.Intn(5), false)}
 	before := jv.Copy(root).(jv.M)
 	beforeFp := jv.Fp(before)
